@@ -7,11 +7,14 @@ import (
 	"math"
 	"math/big"
 	"math/rand/v2"
+	"sync"
 	"testing"
 
 	"github.com/platinummonkey/go-concurrency-limits/core"
+	"github.com/platinummonkey/go-concurrency-limits/limit"
 
 	"verifharness/internal/limgen"
+	"verifharness/internal/lin"
 	"verifharness/internal/rt"
 )
 
@@ -193,13 +196,55 @@ func sustained(idx int64, r *rand.Rand) {
 	}
 }
 
+// concurrentDrops: N drop samples delivered to one AIMD limit at the same moment.  Each drop must apply the exact rule
+// once (the result is the N-fold application, whatever the order) and no notification may report a rise.
+func concurrentDrops(idx int64, r *rand.Rand) {
+	l0 := 20 + r.IntN(2000)
+	ratio := float64(1+r.IntN(31)) / 32
+	l := limit.NewAIMDLimit("c06", l0, ratio, 1, nil)
+	var mu sync.Mutex
+	var seen []int
+	l.NotifyOnChange(func(v int) { mu.Lock(); seen = append(seen, v); mu.Unlock() })
+	n := 2 + r.IntN(7)
+	bar := lin.NewBarrier(n)
+	var wg sync.WaitGroup
+	for g := 0; g < n; g++ {
+		wg.Add(1)
+		go func(g int) {
+			defer wg.Done()
+			bar.Wait()
+			l.OnSample(0, 1000, g, true)
+		}(g)
+	}
+	wg.Wait()
+	want := l0
+	for i := 0; i < n; i++ {
+		want, _ = aimdExpected(want, ratio)
+	}
+	rt.Count("concurrent_drop_rounds", 1)
+	if got := l.EstimatedLimit(); got != want {
+		rt.Violation("C06/aimd/concurrent-drops-not-each-applied-exactly-once", idx, rt.J{"start": l0, "ratio": ratio, "drops": n, "final": got, "want": want, "notified": seen})
+		return
+	}
+	for i := 1; i < len(seen); i++ {
+		if seen[i] > seen[i-1] {
+			rt.Violation("C06/aimd/drop-raised-estimate/concurrent", idx, rt.J{"start": l0, "ratio": ratio, "drops": n, "notified": seen})
+			return
+		}
+	}
+	rt.Distinct(fmt.Sprintf("conc|%d|%g|%d", l0, ratio, n))
+}
+
 func TestCheck(t *testing.T) {
 	rt.Cases(20000, 4000000, func(idx int64) {
 		r := rt.CaseRand(6, idx)
 		rt.Case()
-		if idx%2 == 0 {
+		switch {
+		case idx%10 == 9:
+			concurrentDrops(idx, r)
+		case idx%2 == 0:
 			singleDrop(idx, r)
-		} else {
+		default:
 			sustained(idx, r)
 		}
 	})
